@@ -535,72 +535,14 @@ fn gen_script(rng: &mut Rng, tier: Tier) -> Script {
     }
 }
 
-/// Environment: sends SIGUSR1 / SIGUSR2 to the main shell at seeded steps while
-/// the script is armed (its traps are installed).
 fn signal_env(s: &Script, inject: bool) -> impl FnMut(&mut Sim, u64) -> bool + use<> {
-    let spaced = s.spaced;
-    let rate = s.rate;
-    let max = s.max_signals;
-    let trap2 = s.trap2;
-    let mut seen = 0usize;
-    let mut armed = false;
-    let mut ends = 0u32;
-    let mut sent = 0u32;
-    let mut sent_trapped = 0u32;
-    move |sim: &mut Sim, _step: u64| {
-        if !inject {
-            return true;
-        }
-        {
-            let h = sim.ctl.history.borrow();
-            for e in &h[seen..] {
-                if e.kind == "mark" && e.pid == 2 {
-                    if e.text.starts_with("armed") {
-                        armed = true;
-                    } else if e.text.starts_with("disarmed") {
-                        armed = false;
-                    } else if e.text.starts_with("te ") {
-                        ends += 1;
-                    }
-                }
-            }
-            seen = h.len();
-        }
-        if !armed || sent >= max {
-            return true;
-        }
-        if spaced && ends < sent_trapped {
-            return true;
-        }
-        if !sim.ctl.decider.borrow_mut().chance(tag::ENV, rate) {
-            return true;
-        }
-        let alive = sim
-            .state
-            .borrow()
-            .processes
-            .get(&Pid(2))
-            .is_some_and(|p| p.state() == ProcessState::Running);
-        if !alive {
-            return true;
-        }
-        let second = trap2 != 0 && sim.ctl.decider.borrow_mut().choose(tag::ENV, 3) == 0;
-        let sig = if second { SIGUSR2 } else { SIGUSR1 };
-        let sys = VirtualSystem {
-            state: Rc::clone(&sim.state),
-            process_id: Pid(1),
-        };
-        sim.ctl.quiet.set(true);
-        drop(sys.kill(Pid(2), Some(sig)));
-        sim.ctl.quiet.set(false);
-        sent += 1;
-        if !second || trap2 == 1 {
-            sent_trapped += 1;
-        }
-        sim.ctl.count("signal_injected");
-        sim.ctl.record(1, "deliver", if second { 2 } else { 1 }, 0, "");
-        true
-    }
+    crate::shellrun::signal_env(crate::shellrun::SigPlan {
+        inject,
+        spaced: s.spaced,
+        rate: s.rate,
+        max: s.max_signals,
+        second: s.trap2,
+    })
 }
 
 fn spec_of(s: &Script) -> ScriptSpec {
